@@ -176,11 +176,15 @@ def run_harness(crate, features, harness, extra=None, timeout=None, playback=Fal
     if res['verdict'] == 'ERROR':
         res['output_tail'] = out[-3000:]
     if playback:
-        vals = None
-        m = re.search(r'let concrete_vals: Vec<Vec<u8>> = vec!\[(.*?)\n    \];', out, re.S)
-        if m:
-            vals = [[int(x) for x in re.findall(r'\d+', v)] for v in re.findall(r'vec!\[([^\]]*)\]', m.group(1))]
-        res['concrete_vals'] = vals
+        # one generated unit test per failed check *and per satisfied cover*: keep the
+        # value vectors of the failed checks (covers replay fine natively, they are not counterexamples)
+        cands = []
+        for m in re.finditer(r'/// Check for `(\w+)`: "(.*?)"\s*\n\s*\n?#\[test\]\s*\nfn \w+\(\) \{\s*\n\s*let concrete_vals: Vec<Vec<u8>> = vec!\[(.*?)\n    \];', out, re.S):
+            vals = [[int(x) for x in re.findall(r'\d+', v)] for v in re.findall(r'vec!\[([^\]]*)\]', m.group(3))]
+            cands.append({'class': m.group(1), 'desc': m.group(2), 'vals': vals})
+        non_cover = [c for c in cands if c['class'] != 'cover']
+        res['playback_candidates'] = non_cover or cands
+        res['concrete_vals'] = (non_cover or cands or [{'vals': None}])[0]['vals']
     res['raw_failed_text'] = '\n'.join(f"{c['id']}: {c['desc']} @ {c['loc']}" for c in res['failed'])
     return res
 
@@ -325,7 +329,8 @@ mod verif_kani_playback {{
     cmd += ['--', 'kani_concrete_playback_replay', '--nocapture']
     p = subprocess.run(cmd, cwd=MIRROR, capture_output=True, text=True, env=env)
     out = p.stdout + p.stderr
-    reproduced = ('kani_concrete_playback_replay ... FAILED' in out) or ('panicked at' in out and 'test result: FAILED' in out) or ('SIGSEGV' in out or 'signal: 11' in out)
+    reproduced = ('kani_concrete_playback_replay ... FAILED' in out) or ('panicked at' in out and 'test result: FAILED' in out) \
+        or ('SIGSEGV' in out or 'signal: 11' in out) or ('panicked at' in out and ('SIGABRT' in out or 'signal: 6' in out))
     ran = 'running 1 test' in out
     keep = [l for l in out.split('\n') if re.search(r'panicked|assertion|FAILED|test result|signal|running 1 test|kani_concrete_playback_replay', l)]
     return reproduced, ran, '\n'.join(keep[-30:])
